@@ -126,13 +126,15 @@ __CPROVER_ensures(!g_exc ==> (g_exit_next == nr_regions && g_seq == 2))         
 extern const _Bool g_state_is_composite, g_state_has_completion; extern int g_front_pushed;
 #define is_composite(S) g_state_is_composite
 #define has_completion_transitions(D, S) g_state_has_completion
+extern const uint8_t g_crid;
 void pool_push_front_completion(fsm_t* self, uint8_t region_id)
 __CPROVER_requires(g_front_pushed == 0)
+__CPROVER_requires(region_id == g_crid)                                          /*@ob C10.completion-occurrence-names-the-region-the-state-was-entered-in */
 __CPROVER_assigns(g_front_pushed)
 __CPROVER_ensures(g_front_pushed == 1)
 ;
 void on_state_entry_completed(fsm_t* self, type_t State, uint8_t region_id)
-__CPROVER_requires(__CPROVER_is_fresh(self, sizeof(*self)) && g_front_pushed == 0)
+__CPROVER_requires(__CPROVER_is_fresh(self, sizeof(*self)) && g_front_pushed == 0 && region_id == g_crid)
 __CPROVER_assigns(g_front_pushed)
 __CPROVER_ensures(g_front_pushed == ((!g_state_is_composite && g_state_has_completion) ? 1 : 0))            /*@ob C10.completion-occurrence-queued-at-the-front-once-per-entry */
 ;
@@ -205,6 +207,30 @@ __CPROVER_assigns(__CPROVER_object_whole(self))
 __CPROVER_ensures(self->m_last_active_state_ids[g_k] == g_init_ids16[g_k])                 /*@ob C08,C03.history-memory-starts-at-the-initial-states */
 ;
 /* the per-state step of on_exit (the lambda handed to visit<active_non_recursive>): the state's own on_exit, once, with the exiting event */
+#if UNIT_ENTRY_VISITOR
+/* state_entry_visitor<Event>::operator()(State&): the functor history_impl::on_entry applies to the active state of region 0, 1, ... in this order */
+typedef struct { fsm_t* m_self; event_t m_event; uint8_t m_region_id; } entryvis_t;
+extern int g_ecalls, g_ecompl; extern const stref_t g_estate; extern fsm_t* const g_eself; extern const uint8_t g_erid;
+void substate_on_entry(stref_t state, event_t event, fsm_t* fsm)
+__CPROVER_requires(g_ecalls == 0 && g_ecompl == 0 && state == g_estate)             /*@ob C02,C03.each-entered-substate-gets-its-entry-behaviour-exactly-once-before-its-completion-is-announced */
+__CPROVER_requires(EV_EQ(event, g_evt))                                           /*@ob C02,C18.entry-behaviour-sees-the-event-that-causes-the-entry */
+__CPROVER_requires(fsm == g_eself)                                                /*@ob C02.entry-behaviour-sees-the-machine-that-owns-the-state */
+__CPROVER_assigns(g_ecalls, g_exc)
+__CPROVER_ensures(g_ecalls == 1)
+;
+void entry_completed(fsm_t* self, type_t State, uint8_t region_id)                /* unit backmp11.on_state_entry_completed */
+__CPROVER_requires(g_ecalls == 1 && g_ecompl == 0 && self == g_eself)             /*@ob C10.completion-announced-after-the-entry-behaviour-once */
+__CPROVER_requires(region_id == g_erid)                                           /*@ob C10.completion-announced-for-the-region-the-state-was-entered-in */
+__CPROVER_assigns(g_ecompl)
+__CPROVER_ensures(g_ecompl == 1)
+;
+void entry_visitor_call(entryvis_t* self, type_t State, stref_t state)
+__CPROVER_requires(__CPROVER_is_fresh(self, sizeof(*self)) && self->m_self == g_eself && EV_EQ(self->m_event, g_evt) && self->m_region_id == g_erid && state == g_estate && g_ecalls == 0 && g_ecompl == 0 && !g_exc)
+__CPROVER_assigns(self->m_region_id, g_ecalls, g_ecompl, g_exc)
+__CPROVER_ensures(!g_exc ==> (g_ecalls == 1 && g_ecompl == 1))                                               /*@ob C02,C10.entry-behaviour-then-completion-announcement */
+__CPROVER_ensures(!g_exc ==> self->m_region_id == (uint8_t)(g_erid + 1))                                     /*@ob C10,C03.next-visited-state-belongs-to-the-next-region */
+;
+#endif
 #if UNIT_EXIT_LAMBDA
 extern int g_xcalls; extern const stref_t g_xstate;
 void substate_on_exit(stref_t state, event_t event, fsm_t* fsm)
